@@ -114,6 +114,7 @@ def check(run, F, tier):
             return
         res = conn.paths(F, f["path"], tag=tag)
         interned = res["interned"]
+        taken = {o.key for o in obs if o.key in ledger}         # audited keys claimed by sites of their own
         for o in obs:
             if o.status == "discharged":
                 mech += 1
@@ -124,11 +125,11 @@ def check(run, F, tier):
                 mech += 1
                 rule.ok(o.key, why)
                 continue
-            le = panics.ledger_match(ledger, o)
+            le = panics.ledger_match(ledger, o, taken=taken, entry=f["path"])
             if le is not None:
                 aud += 1
-                used.add(o.key)
-                rule.ok(o.key, "audited: " + le["reason"])
+                used.add(le.get("via", o.key))
+                rule.ok(o.key, "audited: " + le["reason"] + ((" [entry %s]" % le["via"]) if le.get("via") else ""))
                 continue
             rule.violation(o.key, "%s: %s %s (%s) at %s:%s - %s" % (name, o.kind, o.desc, o.status, o.site[0].split("::")[-1], o.site[1], o.why),
                            conn.path_summary(o.path), site="%s:%s" % (F.fns[o.site[0]]["file"] if o.site[0] in F.fns else "?", o.site[1]))
